@@ -554,3 +554,87 @@ def selfcheck_np():
         assert np.allclose(P, P.T, atol=1e-12)
         assert np.allclose(P.sum(axis=0), 0, atol=1e-10)
     return True
+
+
+# ---------------------------------------------------------------------------
+# wide-range networks (resistances spanning many decades) and long chains
+
+
+def dumbbell(bridge):
+    """Two 6-node rings with one chord each (resistances in {1/2,1,2}),
+    joined by a single bridge 2 -- 8."""
+    vals = [Fraction(1, 2), Fraction(1), Fraction(2)]
+    links = {}
+    for off in (0, 6):
+        for i in range(6):
+            a, b = sorted((off + i, off + (i + 1) % 6))
+            links[(a, b)] = vals[i % 3]
+        links[(off, off + 3)] = Fraction(2)
+    links[(2, 8)] = Fraction(bridge)
+    return 12, links
+
+
+def wide_chain3():
+    return 3, {(0, 1): Fraction(1), (1, 2): Fraction(10 ** 7)}
+
+
+def wide_chain4():
+    return 4, {(0, 1): Fraction(1, 1000), (1, 2): Fraction(1),
+               (2, 3): Fraction(10 ** 7)}
+
+
+def wide_star():
+    rs = [Fraction(1, 1000), Fraction(1, 100), 1, 10, 100, 10 ** 4, 10 ** 5,
+          10 ** 6]
+    return 9, {(0, k + 1): Fraction(r) for k, r in enumerate(rs)}
+
+
+def pinv_exact(n, links):
+    """Moore-Penrose inverse of the admittance Laplacian, exactly: the
+    doubly centred grounded Green's function."""
+    G = green(n, links)
+    row = [sum(G[i], Fraction(0)) / n for i in range(n)]
+    col = [sum((G[i][j] for i in range(n)), Fraction(0)) / n
+           for j in range(n)]
+    tot = sum(row, Fraction(0)) / n
+    return [[G[i][j] - row[i] - col[j] + tot for j in range(n)]
+            for i in range(n)]
+
+
+def chain_vcfb(n, i):
+    """Unit chain: every pair s < i < t sends its whole unit current through
+    node i."""
+    return Fraction(2 * i * (n - 1 - i), n * (n - 1))
+
+
+def chain_ecfb(n, i):
+    """Link (i, i+1) of a unit chain carries the current of every pair
+    s <= i < t."""
+    return Fraction(2 * (i + 1) * (n - 1 - i), n * (n - 1))
+
+
+def selfcheck_wide():
+    n, lk = chain(7)
+    assert vertex_cfb(n, lk) == [chain_vcfb(n, i) for i in range(n)]
+    e = edge_cfb(n, lk)
+    assert all(e[i][i + 1] == chain_ecfb(n, i) for i in range(n - 1))
+    for n, lk in (dumbbell(10 ** 6), wide_chain4(), wide_star()):
+        P = pinv_exact(n, lk)
+        Y = admittance(n, lk)
+        L = [[(sum(Y[i], Fraction(0)) if i == j else 0) - Y[i][j]
+              for j in range(n)] for i in range(n)]
+
+        def mm(A, B):
+            return [[sum((A[i][k] * B[k][j] for k in range(n)), Fraction(0))
+                     for j in range(n)] for i in range(n)]
+        assert mm(mm(L, P), L) == L and mm(mm(P, L), P) == P
+        assert all(P[i][j] == P[j][i] for i in range(n) for j in range(n))
+        er = effective_resistance_matrix(n, lk)
+        assert all(er[a][b] == P[a][a] + P[b][b] - 2 * P[a][b]
+                   for a in range(n) for b in range(n))
+        assert foster_sum(n, lk, er) == n - 1
+    n, lk = dumbbell(10 ** 7)
+    er = effective_resistance_matrix(n, lk)
+    assert er[2][8] == 10 ** 7          # a bridge is in series with the rest
+    assert edge_cfb(n, lk)[2][8] == Fraction(2 * 36, 12 * 11)
+    return True
